@@ -20,7 +20,8 @@ ASSUMPTIONS = [
     'SBML sub-domain: generated linear PKPD models (dosed, fixed parameters) through the reference integrator vf/simshim.py; '
     'oracle = complex step through the closed-form solution (matrix exponential)']
 REQUIRED = ['indiv', 'hier', 'sbml', 'dosed', 'sbml_fixed', 'posterior', 'nonfinite', 'cov', 'red', 'noncentered', 'kind:pooled',
-            'kind:hetero', 'unmeasured_output_first', 'negative_outputs', 'sbml_all_mech_fixed', 'sbml_nothing_measured', 'trunc_value_on_boundary']
+            'kind:hetero', 'unmeasured_output_first', 'negative_outputs', 'sbml_all_mech_fixed', 'sbml_nothing_measured', 'trunc_value_on_boundary',
+            'sbml_renamed_parameters:some_mech_fixed']
 
 
 @st.composite
@@ -141,6 +142,11 @@ def classify(spec):
                 labs.append('sbml_all_mech_fixed')
         if not any(spec['ll']['times']):
             labs.append('sbml_nothing_measured')
+        if _renamed(spec):
+            labs.append('sbml_renamed_parameters')
+            if spec['fixed'] and any(int(k) < spec['ll']['n_par'] for k in spec['fixed']) and \
+                    sum(1 for k in spec['fixed'] if int(k) < spec['ll']['n_par']) < spec['ll']['n_par']:
+                labs.append('sbml_renamed_parameters:some_mech_fixed')
     else:
         if spec['ll']['n_out'] > 1:
             labs.append('multi_output')
@@ -154,6 +160,12 @@ def classify(spec):
         if spec.get('signed'):
             labs.append('negative_outputs')
     return sorted(set(labs))
+
+
+def _renamed(spec):
+    """SBML kind: the mechanistic parameters carry display names (set before the likelihood is built) in about half of
+    the cases (a rule over the drawn spec, so that stored replay files keep their meaning)."""
+    return spec['kind'] == 'sbml' and (len(spec['params']) + len(spec['outputs']) + len(spec['ll']['times'][0])) % 2 == 0
 
 
 def nontrivial(spec):
@@ -191,6 +203,10 @@ def check(case):
                 comp = ms['comps'][admin['comp']]
                 M.set_administration(comp['id'], amount_var='%s_amount' % comp['sid'], direct=admin['direct'])
             M.set_outputs(list(s['outputs']))
+            if _renamed(s):
+                # display names for the mechanistic parameters: everything downstream addresses them by these names
+                M.set_parameter_names({n: 'Parameter %d (%s)' % (k + 1, n.split('.')[-1])
+                                       for k, n in enumerate(M.parameters())})
             if s['reg'] is not None:
                 r = s['reg']
                 M.set_dosing_regimen(dose=r['dose'], start=r['start'], duration=r['duration'], period=r['period'],
